@@ -207,9 +207,16 @@ def accuracy():
 def front_ends():
     """soc_solve of the ro/dro/gcp front ends hands to_socp(do_math()) to the solver and leaves the model's cached primal alone"""
     out = []
-    for front in ("ro", "dro"):
+    for front in ("ro", "dro", "gcp"):
         def setup(c, front=front):
-            if front == "ro":
+            if front == "gcp":
+                from ..harness import gcp
+                m = gcp.Model()
+                x = m.dvar(2)
+                m.min(x.sum())
+                for k in (rsome.exp(x[0]) <= 3, rsome.norm(x, 2) <= 2, x >= -1):
+                    m.st(k)
+            elif front == "ro":
                 m = ro.Model()
                 x = m.dvar(2)
                 m.min(x.sum())
